@@ -14,6 +14,7 @@ import (
 	"encoding/hex"
 	"encoding/json"
 	"fmt"
+	"github.com/ProtonMail/gluon/verif/drivers/c10"
 	"math/rand"
 	"os"
 	"sort"
@@ -922,9 +923,23 @@ func run(r *ev.Run, tier, replay string) {
 		busyMax = 150 * time.Second
 	}
 	if replay != "" {
+		if b, err := os.ReadFile(replay); err == nil {
+			var rp struct {
+				Replay struct {
+					T json.RawMessage `json:"truncated"`
+				} `json:"replay"`
+			}
+			if json.Unmarshal(b, &rp) == nil && len(rp.Replay.T) > 0 && c10.TruncationReplay(r, rp.Replay.T) {
+				r.Set("states", 1)
+				r.Set("transitions", 1)
+				return
+			}
+		}
 		runReplay(r, sh, replay, heavy)
 		return
 	}
+	// parser level: every command of the bounded grammar cut off after every byte, the stream ends there
+	c10.TruncationSweep(r, tier)
 	var lines, errrun *sess.Model
 	var e1, e2 error
 	var wg sync.WaitGroup
